@@ -7,7 +7,13 @@ so the kind of object / number that comes back is demanded there too; a member t
 declared property holding its default or the not-passed marker (`check_absent`).
 Histories: one element object validates whole sequences of values (`check_histories`: unions with overlapping
 branches at every position, later-branch values first), every accepted value judged on its own; a failure is
-recorded with the earlier calls it needs (`history` in the case) and replayed with them."""
+recorded with the earlier calls it needs (`history` in the case) and replayed with them.
+Carried values: "all values they accept" includes the values an application holds after an earlier step - the dict-like
+objects an un-typed element returned (whole, as the payload of a loosely described envelope, or as the members of a
+freshly assembled container) and other dict subclasses (`OrderedDict`).  Every accepted value that contains an object
+is handed in again in one of those forms (`check_carried`): it is the same JSON value, so the same walk must succeed
+on what comes back, the call must leave it alone, and what comes back must be what the plain value gave."""
+import collections
 import copy
 import random
 
@@ -254,6 +260,163 @@ def embeds(v, r, path, problems, regions, elem=None, seen=None):
     problems.append(f"{path}: unexpected input type {type(v).__name__}")
 
 
+# ----------------------------------------------------------------------------- carried values
+# "all supported schemas x all values they accept": a value does not stop being that value because an earlier step of the
+# application already ran it through the library (or through `json.load(..., object_pairs_hook=OrderedDict)`).  Multi-step
+# use is ordinary: an envelope is read with a loose schema, then its payload is validated against the schema its `kind`
+# selects; a document is assembled from parts of earlier results.  What the second schema is given is then not a plain
+# `dict` but the dict subclass the first step returned.
+
+CARRY_MODES = ["whole", "envelope", "parts", "ordered"]
+
+
+def has_object(v, depth=0):
+    if depth > 40:
+        return False
+    if isinstance(v, dict):
+        return True
+    return isinstance(v, list) and any(has_object(x, depth + 1) for x in v)
+
+
+def carry(v, mode):
+    """The JSON value `v` in the form an application holds it after an earlier step (a fresh object on every call)."""
+    from statham.schema.elements import Element
+    from statham.schema.parser import parse_element
+    if mode == "whole":          # the output of an un-typed element
+        return Element()(copy.deepcopy(v))
+    if mode == "envelope":       # the un-described payload of a loosely described envelope
+        envelope = parse_element({"properties": {"kind": {"type": "string"}}})({"kind": "k", "payload": copy.deepcopy(v)})
+        return envelope["payload"]
+    if mode == "parts":          # a plain container assembled from members that earlier conversions returned
+        loose = Element()
+        if isinstance(v, dict):
+            return {k: loose(copy.deepcopy(x)) for k, x in v.items()}
+        if isinstance(v, list):
+            return [loose(copy.deepcopy(x)) for x in v]
+        return copy.deepcopy(v)
+    if mode == "ordered":        # what json.load(..., object_pairs_hook=OrderedDict) gives
+        if isinstance(v, dict):
+            return collections.OrderedDict((k, carry(x, mode)) for k, x in v.items())
+        if isinstance(v, list):
+            return [carry(x, mode) for x in v]
+        return v
+    raise ValueError(mode)
+
+
+def plain(x):
+    """(the JSON value with every dict subclass turned back into a dict, how many there were)"""
+    if isinstance(x, dict):
+        n = 0 if type(x) is dict else 1
+        d = {}
+        for k, y in x.items():
+            d[k], m = plain(y)
+            n += m
+        return d, n
+    if isinstance(x, list):
+        items = [plain(y) for y in x]
+        return [y for y, _ in items], sum(m for _, m in items)
+    return x, 0
+
+
+def first_difference(a, b, path="$"):
+    """Where two canonical results (`core.canon_rval`) differ first, and how: a short text, None when they are the same."""
+    def kind(c):
+        if isinstance(c, dict) and len(c) == 1:
+            k = next(iter(c))
+            return {"i": "an int", "f": "a float", "inst": "a model instance", "anon": "an untyped object", "dict": "an untyped object",
+                    "np": "the not-passed marker"}.get(k, k)
+        if isinstance(c, dict) and "inst" in c:
+            return f"an instance of model {c['inst']}"
+        return "an array" if isinstance(c, list) else repr(c)[:40]
+    if type(a) is not type(b) or (isinstance(a, dict) and (list(a) != list(b) or a.get("inst") != b.get("inst"))):
+        return f"{path}: {kind(a)} instead of {kind(b)}"
+    if isinstance(a, dict):
+        for k in a:
+            if k in ("d", "anon", "dict"):
+                if [m[0] for m in a[k]] != [m[0] for m in b[k]]:
+                    return f"{path}: members {[m[0] for m in a[k]][:8]} instead of {[m[0] for m in b[k]][:8]}"
+                for (name, x), (_, y) in zip(a[k], b[k]):
+                    d = first_difference(x, y, f"{path}.{name}")
+                    if d:
+                        return d
+            elif a[k] != b[k]:
+                return f"{path}: {kind(a)} {a[k]!r} instead of {kind(b)} {b[k]!r}"
+        return None
+    if isinstance(a, list):
+        if len(a) != len(b):
+            return f"{path}: {len(a)} items instead of {len(b)}"
+        for i, (x, y) in enumerate(zip(a, b)):
+            d = first_difference(x, y, f"{path}[{i}]")
+            if d:
+                return d
+        return None
+    return None if a == b else f"{path}: {a!r} instead of {b!r}"
+
+
+def untyped_alike(c):
+    if isinstance(c, list):
+        return [untyped_alike(x) for x in c]
+    if isinstance(c, dict):
+        return {("dict" if k == "anon" and len(c) == 1 else k): untyped_alike(x) for k, x in c.items()}
+    return c
+
+
+def judge_carried(el, v, mode, plain_result, seen=None):
+    """Hand the accepted JSON value `v` to `el` again in the carried form `mode`.  Returns (status, problem): status is
+    "judged" (problem None = fine), or why nothing could be judged.  `plain_result` is what `el` returned for the plain value."""
+    try:
+        given, witness = carry(v, mode), carry(v, mode)
+        back, foreign = plain(given)
+    except Exception:  # noqa: BLE001 - the earlier step itself failed: the other families judge that schema
+        return "carry-failed", None
+    if not foreign:
+        return "nothing-carried", None
+    if not core._same_value(back, v) or not core._same_value(given, witness):  # pylint: disable=protected-access
+        return "carry-unfaithful", None
+    try:
+        res = el(given)
+    except Exception:  # noqa: BLE001 - C04 is about accepted values; acceptance itself is C01's
+        return "carried-not-accepted", None
+    if not core._same_value(given, witness):  # pylint: disable=protected-access
+        return "judged", "the call altered the value it was given"
+    problems, regions = [], set()
+    embeds(v, res, "$", problems, regions, el, seen)
+    if problems:
+        return "judged", problems[0]
+    # model instance vs untyped object, int vs float, members and their order - but not which dict class an untyped
+    # object is (an element that hands the value back as it is, e.g. `not`, hands back the dict class it was given)
+    where = first_difference(untyped_alike(core.canon_rval(res)), untyped_alike(core.canon_rval(plain_result)))
+    if where:
+        return "judged", f"{where} (the latter is what the same value gives when handed in as plain dicts)"
+    return "judged", None
+
+
+class Carrier:
+    """Chooses the carried form (its own stream, derived from ctx["seed"]) and keeps the books."""
+
+    def __init__(self, rng, stats):
+        self.rng, self.stats = rng, stats
+
+    def check(self, el, v, plain_result, out, prior, seen=None, schema=None, element=None):
+        if not has_object(v):
+            return
+        mode = self.rng.choice(CARRY_MODES)
+        status, problem = judge_carried(el, v, mode, plain_result, seen)
+        if status == "nothing-carried" and mode != "whole":
+            mode = "whole"
+            status, problem = judge_carried(el, v, mode, plain_result, seen)
+        stats = self.stats
+        stats["carried-" + status] = stats.get("carried-" + status, 0) + 1
+        if status != "judged":
+            return
+        stats["carried-as-" + mode] = stats.get("carried-as-" + mode, 0) + 1
+        kind = type(el).__name__ if not isinstance(el, type) else "model-class"
+        stats["carried-into-" + kind] = stats.get("carried-into-" + kind, 0) + 1
+        if problem:
+            record_failure(out, stats, prior, v, f"handed in as {mode!r} (the form an earlier conversion left it in): {problem}",
+                           None, schema=schema, element=element, carried=mode)
+
+
 def enc_hist(v):
     return {"$notpassed": 1} if isinstance(v, NotPassed) else v
 
@@ -262,7 +425,7 @@ def dec_hist(v):
     return NotPassed() if isinstance(v, dict) and set(v) == {"$notpassed"} else v
 
 
-def history_of(prior, value, schema=None, element=None):
+def history_of(prior, value, schema=None, element=None, carried=None):
     """Which of the calls made on the same element object before the judged one (`prior`, in order) are needed for the
     failure to show again on a freshly built element: none, else one of them, else all of them (None: it does not
     show again even with all of them)."""
@@ -272,16 +435,18 @@ def history_of(prior, value, schema=None, element=None):
             singles.append(h)
     for hist in [[]] + [[h] for h in singles[:16]] + ([list(prior)] if len(prior) > 1 else []):
         try:
-            if _fails(schema, value, element, [enc_hist(h) for h in hist]):
+            if _fails(schema, value, element, [enc_hist(h) for h in hist], carried):
                 return [enc_hist(h) for h in hist]
         except Exception:  # noqa: BLE001
             continue
     return None
 
 
-def record_failure(out, stats, prior, value, what, fid, schema=None, element=None):
+def record_failure(out, stats, prior, value, what, fid, schema=None, element=None, carried=None):
     case = {"schema": schema, "value": value} if element is None else {"element": element, "value": value}
-    hist = history_of(prior, value, schema, element)
+    if carried:
+        case["carried"] = carried      # the form in which the value was handed in (`carry`)
+    hist = history_of(prior, value, schema, element, carried)
     if hist is None:
         # seen once, on this element object after these calls, and not again when everything is redone from scratch
         case["history"] = [enc_hist(h) for h in prior]
@@ -295,7 +460,7 @@ def record_failure(out, stats, prior, value, what, fid, schema=None, element=Non
     stats["embed-fail-" + str(fid)] = stats.get("embed-fail-" + str(fid), 0) + 1
 
 
-def check_case(drv, schema, values, out, stats, seen=None):
+def check_case(drv, schema, values, out, stats, seen=None, carrier=None):
     """The values are validated one after the other by ONE element object (the property is about every accepted
     value, whatever the same schema object validated before), so value i is judged after the history values[:i]."""
     obs = observe(drv, schema, values, out, stats)
@@ -331,10 +496,12 @@ def check_case(drv, schema, values, out, stats, seen=None):
             if not (obs["tree_ok"] and (obs["models"][i] == real or obs["models"][i]["r"] == "crash")):
                 fid = None
             record_failure(out, stats, list(values) + list(values[:i]), v, problems[0], fid, schema=schema)
+        elif carrier is not None:
+            carrier.check(el, v, res, out, list(values) + list(values[:i + 1]), seen, schema=schema)
     return True
 
 
-def check_dsl(drv, dump, values, out, stats, seen=None):
+def check_dsl(drv, dump, values, out, stats, seen=None, carrier=None):
     """The same oracle on a tree built through the DSL (model tie via `elem_call`); one element object for all the values."""
     from harness import dsl
     el = dsl.build(dump)
@@ -375,6 +542,8 @@ def check_dsl(drv, dump, values, out, stats, seen=None):
             if not agree:
                 fid = None
             record_failure(out, stats, [x for y in values[:idx] for x in (y, y)] + [v], v, problems[0], fid, element=dump)
+        elif carrier is not None:
+            carrier.check(el, v, res, out, [x for y in values[:idx + 1] for x in (y, y)], seen, element=dump)
 
 
 # ----------------------------------------------------------------------------- histories over overlapping branches
@@ -493,7 +662,7 @@ def overlap_histories(rng, sg, vg, count, stats):
             made += 1
 
 
-def check_single(schema, calls, out, stats, seen=None):
+def check_single(schema, calls, out, stats, seen=None, carrier=None):
     """One element object, every value validated exactly once, every accepted result judged (no model involved; run
     only after `check_case` found nothing to report on the same calls, known regions included)."""
     status, el = core.real_parse(schema)
@@ -509,18 +678,20 @@ def check_single(schema, calls, out, stats, seen=None):
         stats["history-single-accepted"] = stats.get("history-single-accepted", 0) + 1
         if problems:
             record_failure(out, stats, list(calls[:i]), v, problems[0], None, schema=schema)
+        elif carrier is not None:
+            carrier.check(el, v, res, out, list(calls[:i + 1]), seen, schema=schema)
 
 
-def check_histories(drv, rng, sg, vg, count, out, stats, seen, stop_at_first=False):
+def check_histories(drv, rng, sg, vg, count, out, stats, seen, stop_at_first=False, carrier=None):
     from harness import dsl
     for n, (position, schema, calls) in enumerate(overlap_histories(rng, sg, vg, count, stats)):
         if stop_at_first and any(f.get("finding") is None for f in out.failures):
             break
         before = len(out.failures)
-        observed = check_case(drv, schema, calls, out, stats, seen)
+        observed = check_case(drv, schema, calls, out, stats, seen, carrier)
         if observed and len(out.failures) == before:
             # nothing at all went wrong when every call was made twice: now every call once
-            check_single(schema, calls, out, stats, seen)
+            check_single(schema, calls, out, stats, seen, carrier)
         if n % 4 == 0 and len(out.failures) == before:
             # the same tree built through the DSL (a class object per model, shared by nothing else)
             status, el = core.real_parse(schema)
@@ -531,7 +702,7 @@ def check_histories(drv, rng, sg, vg, count, out, stats, seen, stop_at_first=Fal
                 except Exception:  # noqa: BLE001
                     stats["history-dsl-unbuildable"] = stats.get("history-dsl-unbuildable", 0) + 1
                     continue
-                check_dsl(drv, dump, calls, out, stats, seen)
+                check_dsl(drv, dump, calls, out, stats, seen, carrier)
                 stats["history-dsl"] = stats.get("history-dsl", 0) + 1
         stats["history-cases"] = stats.get("history-cases", 0) + 1
 
@@ -587,18 +758,20 @@ def run(ctx, scale=1.0, histories=1.0):
                 "pair; non-trivial = the value is a non-empty array or object; distinct by SHA-256")
     stats = {}
     seen = {}
+    carrier = Carrier(random.Random(ctx["seed"] * 104729 + 4004), stats)    # the carried forms have their own stream too
     drv = core.Driver()
     try:
-        check_histories(drv, hrng, SchemaGen(hrng), ValueGen(hrng), int(N_HISTORIES[ctx["tier"]] * scale * histories), out, stats, seen)
+        check_histories(drv, hrng, SchemaGen(hrng), ValueGen(hrng), int(N_HISTORIES[ctx["tier"]] * scale * histories), out, stats, seen,
+                        carrier=carrier)
         for schema, values in families(rng):
-            check_case(drv, schema, list(values), out, stats, seen)
+            check_case(drv, schema, list(values), out, stats, seen, carrier)
         sg, vg = SchemaGen(rng), ValueGen(rng)
         n = int(N_SCHEMAS[ctx["tier"]] * scale)
         for i in range(n):
             extreme = (i % 12 == 11)
             sg.extreme = vg.extreme = vg.free.extreme = extreme
             schema = sg.schema()
-            check_case(drv, schema, vg.values(schema, 8), out, stats, seen)
+            check_case(drv, schema, vg.values(schema, 8), out, stats, seen, carrier)
         # renamed properties, collisions, nested models, tuple tails, branches
         special = [
             ({"type": "object", "title": "M", "properties": {"a b": {"type": "integer"}, "class": {"type": "string"}},
@@ -615,13 +788,13 @@ def run(ctx, scale=1.0, histories=1.0):
             ({"not": {"type": "string"}}, [{"a": [1, 2]}, [1, {"b": 2}], 3]),
         ]
         for schema, values in special:
-            check_case(drv, schema, values, out, stats, seen)
+            check_case(drv, schema, values, out, stats, seen, carrier)
         from harness import dsl
         from harness.props.c08 import dump_to_schema
         dg = dsl.DumpGen(rng)
         for i in range(int(n / 3)):
             dump = dg.dump(3)
-            check_dsl(drv, dump, vg.values(dump_to_schema(dump), 8), out, stats, seen)
+            check_dsl(drv, dump, vg.values(dump_to_schema(dump), 8), out, stats, seen, carrier)
         # model classes that inherit from a model class: the parent is used first, then the child (and the other way round)
         for i in range(int((10 if ctx["tier"] == "quick" else 200) * scale)):
             check_inherited(rng, i, out, stats)
@@ -643,6 +816,7 @@ def search(ctx, reason):
     rng = random.Random(sub["seed"] * 31 + 5)
     text = json.dumps(reason, default=str, ensure_ascii=False)
     out, stats, seen = Outcome(), {}, {}
+    carrier = Carrier(random.Random(sub["seed"] * 104729 + 4004), stats)
     drv = core.Driver()
     try:
         # 1. the schemas on which model and implementation disagreed, each as a history on one element object
@@ -653,11 +827,11 @@ def search(ctx, reason):
                 continue
             for _ in range(6):
                 calls = vg.values(schema, 16)
-                if check_case(drv, schema, calls, out, stats, seen):
-                    check_single(schema, calls, out, stats, seen)
+                if check_case(drv, schema, calls, out, stats, seen, carrier):
+                    check_single(schema, calls, out, stats, seen, carrier)
         # 2. a composition is named: many more histories over overlapping branches
         if any(w in text for w in ("anyOf", "oneOf", "allOf", "AnyOf", "OneOf", "AllOf", "omposition", "_attempt_schema")):
-            check_histories(drv, rng, SchemaGen(rng), ValueGen(rng), N_HISTORIES[ctx["tier"]] * 4, out, stats, seen, stop_at_first=True)
+            check_histories(drv, rng, SchemaGen(rng), ValueGen(rng), N_HISTORIES[ctx["tier"]] * 4, out, stats, seen, stop_at_first=True, carrier=carrier)
     finally:
         drv.close()
     fresh = [f for f in out.failures if f.get("finding") is None]
@@ -668,7 +842,7 @@ def search(ctx, reason):
     return fresh[0] if fresh else None
 
 
-def _fails(schema, value, element=None, history=()):
+def _fails(schema, value, element=None, history=(), carried=None):
     """Build the element afresh, make the `history` calls on it, then validate `value` and judge what comes back."""
     if element is not None:
         from harness import dsl
@@ -692,6 +866,10 @@ def _fails(schema, value, element=None, history=()):
         return True         # the call altered the value it was given
     problems, regions = [], set()
     embeds(value, res, "$", problems, regions, el)
+    if carried and not problems:
+        # the plain value is fine: now the same value in the form an earlier conversion left it in
+        status, problem = judge_carried(el, value, carried, res)
+        return status == "judged" and problem is not None
     return bool(problems)
 
 
@@ -713,4 +891,4 @@ def replay(payload):
         out, stats = Outcome(), {}
         check_inherited(random.Random(0), i, out, stats)
         return not out.failures
-    return not _fails(case.get("schema"), case["value"], case.get("element"), case.get("history") or ())
+    return not _fails(case.get("schema"), case["value"], case.get("element"), case.get("history") or (), case.get("carried"))
